@@ -13,6 +13,7 @@ import (
 	"github.com/btcsuite/btcd/txscript"
 	"github.com/btcsuite/btcd/wire"
 	"github.com/btcsuite/btcwallet/chain"
+	"github.com/btcsuite/btcwallet/waddrmgr"
 	"github.com/btcsuite/btcwallet/wallet"
 	"github.com/btcsuite/btcwallet/walletdb"
 	"github.com/btcsuite/btcwallet/wtxmgr"
@@ -187,17 +188,45 @@ func offered(r *evid.Run, dir string, cs int64) {
 			var tx *wire.MsgTx
 			var err error
 			var changeOps []*wh.Coin
+			byParent := map[chainhash.Hash][]*wh.Coin{}
 			for _, c := range f.SortedCoins() {
 				if c.Change && c.Height == -1 && c.SpentBy == "" && c.Out.Value > 40000 {
 					changeOps = append(changeOps, c)
 				}
+				if c.Change && c.Height == -1 && c.SpentBy == "" && c.Scope == waddrmgr.KeyScopeBIP0086 && c.Acct == 0 {
+					byParent[c.Op.Hash] = append(byParent[c.Op.Hash], c)
+				}
 			}
-			if len(changeOps) > 0 && rg.Intn(2) == 0 {
+			var pair []*wh.Coin
+			for _, p := range f.Pending {
+				if cs := byParent[p.TxHash()]; len(cs) >= 2 && cs[0].Out.Value+cs[1].Out.Value > 30000 {
+					pair = cs[:2]
+				}
+			}
+			switch {
+			case pair != nil && rg.Intn(2) == 0:
+				// a child spending TWO outputs of the same unconfirmed parent (two
+				// edges between one pair of transactions)
+				sc := waddrmgr.KeyScopeBIP0086
+				outs[0].Value = (pair[0].Out.Value + pair[1].Out.Value) / 3
+				tx, err = f.W.SendOutputsWithInput(outs, &sc, 0, 0, 2000, wallet.CoinSelectionLargest, "", []wire.OutPoint{pair[0].Op, pair[1].Op})
+				if err == nil {
+					r.Hit("wallet-children-spending-two-outputs-of-one-parent", 1)
+				}
+			case len(changeOps) > 0 && rg.Intn(2) == 0:
 				c := changeOps[rg.Intn(len(changeOps))]
 				sc := c.Scope
 				outs[0].Value = c.Out.Value / 3
 				tx, err = f.W.SendOutputsWithInput(outs, &sc, c.Acct, 0, 2000, wallet.CoinSelectionLargest, "", []wire.OutPoint{c.Op})
-			} else {
+			case rg.Intn(3) == 0:
+				// pay one of the wallet's own addresses: the transaction then has two
+				// wallet outputs (payment and change)
+				if own, e := f.W.NewAddress(0, waddrmgr.KeyScopeBIP0086); e == nil {
+					opk, _ := txscript.PayToAddrScript(own)
+					outs[0] = wire.NewTxOut(int64(30000+rg.Intn(30000)), opk)
+				}
+				tx, err = f.W.SendOutputs(outs, nil, 0, 1, 2000, wallet.CoinSelectionLargest, "")
+			default:
 				tx, err = f.W.SendOutputs(outs, nil, 0, 1, 2000, wallet.CoinSelectionLargest, "")
 			}
 			if err != nil {
@@ -399,6 +428,7 @@ func main() {
 	})
 	r.Parallel("offered", r.N(12, 240), evid.Workers(), func(i int, cs int64) { offered(r, dir, cs) })
 	r.Require("wallet-rebroadcast-passes", 10)
+	r.Require("wallet-children-spending-two-outputs-of-one-parent", 3)
 	r.Require("wallet-rebroadcast-passes-with-rejection", 3)
 	r.Require("sorts", 5000)
 	r.Require("graphs:multi-edge", 10)
